@@ -20,7 +20,8 @@ def cases(tier, seed):
     for ab in ((2.0, 100.0), (0.5, 3.0), (1e-2, 1e4)):
         yield f"uniformlog/{ab}", {"kind": "uniformlog", "a": ab[0], "b": ab[1], "seed": int(seed) + 1}
     for P0u in ("yr", "day"):
-        yield f"fcm/{P0u}", {"kind": "fcm", "P0u": P0u}
+        for sKu in ("km/s", "m/s"):
+            yield f"fcm/{P0u}/{sKu}", {"kind": "fcm", "P0u": P0u, "sKu": sKu}
     yield "kipping", {"kind": "kipping"}
     # the default period prior declared in other units: draws (as quantities) lie in the declared domain and are log-uniform on it
     for pu in (("day", "day"), ("yr", "yr"), ("h", "day"), ("yr", "day")):
@@ -71,10 +72,12 @@ def check(inp):
             P = xu.with_unit(pm.Uniform("P", 1.0, 10.0), u.day)
             e = xu.with_unit(pm.Uniform("e", 0.0, 0.9), u.one)
             P0 = (1.0 * u.yr) if inp["P0u"] == "yr" else (365.25 * u.day)
-            K = FixedCompanionMass("K", P=P, e=e, sigma_K0=30 * u.km / u.s, P0=P0, max_K=400 * u.km / u.s)
+            sKu = u.Unit(inp.get("sKu", "km/s"))
+            K = FixedCompanionMass("K", P=P, e=e, sigma_K0=(30 * u.km / u.s).to(sKu), P0=P0, max_K=400 * u.km / u.s)
         sig = K.owner.op.dist_params(K.owner)[1]
+        f = (1 * u.km / u.s).to_value(sKu)      # the scale of K is in sigma_K0's unit
         for Pv, ev in itertools.product((0.004, 2.0, 50.0, 365.25, 5000.0), (0.0, 0.5, 0.95)):
-            got = float(sig.eval({P: Pv, e: ev}))
+            got = float(sig.eval({P: Pv, e: ev})) / f
             want = math.sqrt(min(30.0 ** 2 * (Pv / 365.25) ** (-2 / 3) / (1 - ev ** 2), 400.0 ** 2))
             if abs(got - want) > 1e-4 * want:
                 bad("FixedCompanionMass.dist", "variance-rule-with-cap", P=Pv, e=ev, got=got, want=want)
